@@ -15,12 +15,15 @@ Binding: harness/facade.py - a transport adapter that decodes the real request
         open/pull/close, InvokeMethod; several default namespaces) are run on
         both paths and judged by TLC.
 """
+import copy
 import hashlib
+from datetime import timedelta
 
 import pywbem
 from pywbem import (CIMInstance, CIMInstanceName, CIMClass, CIMClassName,
                     CIMProperty, CIMQualifier, CIMQualifierDeclaration,
-                    CIMError, Uint32, Uint16, Uint8)
+                    CIMParameter, CIMDateTime, CIMError, Uint32, Uint16, Uint8,
+                    Uint64, Sint64, Sint8, Real32, Real64, Char16)
 
 import vlib
 import mockrepo
@@ -68,6 +71,36 @@ def valdig(name, v):
                       CIMQualifierDeclaration)):
         return "o:" + h(cimcanon.ncanon(strip(v)))
     return "x:" + h(repr(v))
+
+
+def mtype(v):
+    """CIM type a caller-supplied method parameter value has by itself"""
+    if isinstance(v, (list, tuple)):
+        for x in v:
+            if x is not None:
+                return mtype(x)
+        return "?"
+    if isinstance(v, (CIMInstanceName, CIMClassName)):
+        return "reference"
+    if isinstance(v, (CIMInstance, CIMClass)):
+        return "string"          # embedded objects travel as typed strings
+    if isinstance(v, timedelta):
+        return "datetime"
+    try:
+        return pywbem.cimtype(v)
+    except (TypeError, ValueError):
+        return "?"
+
+
+def mdig(name, v, t=None):
+    """typed digest of an extrinsic method parameter: CIM type, array-ness and
+    value (a method parameter is typed on the wire, PARAMTYPE)"""
+    if isinstance(v, timedelta):
+        v = CIMDateTime(v)
+    if isinstance(v, (list, tuple)):
+        v = [CIMDateTime(x) if isinstance(x, timedelta) else x for x in v]
+    return "t:%s%s:%s" % (t or mtype(v), "[]" if isinstance(v, (list, tuple))
+                          else "", valdig(name, v))
 
 
 def nohost(o):
@@ -118,14 +151,34 @@ class Pair:
     def repo_dig(self, conn):
         return h(tuple(sorted(cimcanon.repo_items_norm(conn))))
 
-    def call(self, op, args, kwargs, nsarg, wire_params, label=None):
+    def set_default(self, ns):
+        """the caller switches the connection's default namespace (on both
+        paths)"""
+        self.dflt = ns
+        self.wire.default_namespace = ns
+        self.B.default_namespace = ns
+        # no event of its own: the label is attached to the next call
+        self.pending_label = "default_namespace = %r; " % (ns,)
+
+    def call(self, op, args, kwargs, nsarg, wire_params, label=None,
+             own=None):
         """op: WBEMConnection method name; args/kwargs: call arguments;
         nsarg: namespace the caller gave ('' if none); wire_params: dict
-        parameter name -> value the caller supplied (None kept)."""
+        parameter name -> value the caller supplied (None kept).
+        Each path gets its own copy of the argument objects (a path that
+        modifies the caller's objects must not help the other one); `own` =
+        ((args, kwargs) for the wire path, (args, kwargs) for the direct
+        path) when the caller keeps argument objects alive across calls."""
         self.facade.saw = None
-        ow, vw = outcome(lambda: getattr(self.wire, op)(*args, **kwargs))
-        od, vd = outcome(lambda: getattr(self.B, op)(*args, **kwargs))
+        if own is None:
+            own = (copy.deepcopy((args, kwargs)), copy.deepcopy((args, kwargs)))
+        (aw, kww), (ad, kwd) = own
+        ow, vw = outcome(lambda: getattr(self.wire, op)(*aw, **kww))
+        od, vd = outcome(lambda: getattr(self.B, op)(*ad, **kwd))
         saw = self.facade.saw
+        is_meth = op == "InvokeMethod"
+        pre = getattr(self, "pending_label", "")
+        self.pending_label = ""
         if saw is None:
             # the call was rejected locally, before anything went on the wire:
             # then the direct path must reject it the same way
@@ -139,14 +192,20 @@ class Pair:
             for item in saw["params"]:
                 n, v = item[0], item[-1]
                 if saw["kind"] == "method":
-                    v = pywbem.cimvalue(v, item[1]) if item[1] and not \
-                        isinstance(v, (CIMInstanceName, CIMInstance,
-                                       CIMClass)) else v
-                sp.append(dict(name=n, dig=valdig(n, facade.Facade.typed(n, v))))
+                    v = facade.wire_typed(v, item[1])
+                if is_meth:
+                    sp.append(dict(name=n, dig=mdig(n, v, item[1] or "?")))
+                else:
+                    sp.append(dict(name=n,
+                                   dig=valdig(n, facade.Facade.typed(n, v))))
             ev = dict(op=op, wire_op=saw["name"] if op != "InvokeMethod"
-                      else kwargs.get("MethodName", args[0] if args else ""),
+                      else aw[0],
                       nsarg=nsarg.lower(), dflt=self.dflt.lower(),
-                      args=[dict(name=n, none=v is None, dig=valdig(n, v))
+                      args=[dict(name=n, none=v is None,
+                                 dig=(mdig(n, v.value, v.type)
+                                      if isinstance(v, CIMParameter)
+                                      else mdig(n, v)) if is_meth
+                                 else valdig(n, v))
                             for n, v in wire_params.items()],
                       saw_op=saw["name"], saw_ns=(saw["namespace"] or "").lower(),
                       saw_params=sp, wire=ow, direct=od,
@@ -155,7 +214,7 @@ class Pair:
             if op != "InvokeMethod":
                 ev["wire_op"] = op
         self.events.append(ev)
-        self.info.append(label or "%s(%s, %s)" % (op, args, kwargs))
+        self.info.append(pre + (label or "%s(%s, %s)" % (op, args, kwargs)))
         return vw, vd
 
 
@@ -214,10 +273,19 @@ def random_sequence(rng, pair, nops):
     x = lambda i, ns=NS1: CIMInstanceName(  # noqa
         "VX", keybindings={"name": "x%d" % i, "n": Uint16(i)}, namespace=ns)
     opt = lambda v: rng.choice([None, v])  # noqa
+    pool = {}
     for step in range(nops):
         r = rng.random()
         nsk = rng.choice([None, None, NS1, NS2])
         nsarg = nsk or ""
+        if rng.random() < 0.06:
+            pair.set_default(rng.choice([NS1, NS2, NS2, "root/other"]))
+        if rng.random() < 0.10:
+            reuse_step(rng, pair, pool)
+            continue
+        if rng.random() < 0.06:
+            doall_step(rng, pair)
+            continue
         if r < 0.10:
             cn = rng.choice(["VA", "va", "VN3", "VX", "VNoSuch", "VAssoc"])
             kw = dict(DeepInheritance=opt(rng.random() < 0.5),
@@ -372,6 +440,104 @@ def random_sequence(rng, pair, nops):
                     _close(pair, vw.context, vd.context)
                     break
                 vw, vd = _pull(pair, vw.context, vd.context, m)
+
+
+DOALL_VALUES = {
+    "C": [Char16("x"), Char16("\u00e4")],
+    "CA": [[Char16("a"), Char16("b")], [Char16("z")]],
+    "D": [CIMDateTime("20200101120000.000000+060"),
+          CIMDateTime("00000003010203.000004:000"), timedelta(seconds=90)],
+    "DA": [[CIMDateTime("20200101120000.000000+000"),
+            CIMDateTime("00000000000001.000000:000")]],
+    "R4": [Real32(1.5), Real32(-0.25)],
+    "R8": [Real64(-2.25), Real64(1e100)],
+    "S8": [Sint64(-2 ** 63), Sint64(7)],
+    "U8A": [[Uint64(2 ** 64 - 1), Uint64(0)]],
+    "S1": [Sint8(-128), Sint8(5)],
+    "U2A": [[Uint16(65535)], [Uint16(1), Uint16(2), Uint16(3)]],
+    "B": [True, False],
+    "BA": [[True, False], [False]],
+    "S": ["TRUE", "", "text", "1"],
+    "SA": [["a", ""], ["x"]],
+    "RF": [CIMInstanceName("VA", keybindings={"k": Uint32(1)}),
+           CIMInstanceName("VA", keybindings={"k": Uint32(2)},
+                           namespace=NS2)],
+    "RFA": [[CIMInstanceName("VA", keybindings={"k": Uint32(1)}),
+             CIMInstanceName("VB", keybindings={"k": Uint32(3)},
+                             namespace=NS1)]],
+    "EI": [CIMInstance("VA", {"k": Uint32(1), "s": "e"})],
+    "EO": [CIMInstance("VN0", {"k": Uint32(9)})],
+}
+DOALL_COMMON = ["C", "CA", "D", "DA", "R4", "R8", "S8", "U8A", "S1", "U2A",
+                "B", "BA", "S", "SA", "RF", "RFA"]
+
+
+def doall_step(rng, pair):
+    """InvokeMethod with input parameters of every CIM type, scalar and array,
+    in every way a caller can pass them: keyword argument, (name, value) tuple
+    or CIMParameter in Params (the type is inferred from the value in the first
+    two)"""
+    names = rng.sample(DOALL_COMMON, rng.randint(1, 5))
+    if rng.random() < 0.15:
+        names.append(rng.choice(["EI", "EO"]))
+    plist, kw, wp = [], {}, {}
+    for n in names:
+        v = copy.deepcopy(rng.choice(DOALL_VALUES[n]))
+        style = rng.choice(["kw", "tuple", "cimparam"])
+        if style == "cimparam" and n not in ("EI", "EO") and \
+                not isinstance(v, timedelta):
+            t = mtype(v)
+            cp = CIMParameter(n, t, value=v, is_array=isinstance(v, list))
+            plist.append(cp)
+            wp[n] = cp
+        elif style == "tuple":
+            plist.append((n, v))
+            wp[n] = v
+        else:
+            kw[n] = v
+            wp[n] = v
+    obj = rng.choice([CIMInstanceName("VM", keybindings={"k": Uint32(1)},
+                                      namespace=NS1),
+                      CIMInstanceName("VM", keybindings={"k": Uint32(1)}),
+                      CIMInstanceName("VM", keybindings={"k": Uint32(1)},
+                                      namespace=NS2)])
+    srcns = obj.namespace or ""
+    pair.call("InvokeMethod", ("DoAll", obj, plist), kw, srcns, wp,
+              label="InvokeMethod(DoAll, %s, Params=%r, %r)" % (obj, plist, kw))
+
+
+def reuse_step(rng, pair, pool):
+    """the caller keeps object-name arguments alive and passes the same
+    objects (without namespace) to several operations, possibly after having
+    switched the default namespace: each path owns one long-lived copy"""
+    key = rng.choice(["vm", "va", "cva"])
+    if key not in pool:
+        mk = {"vm": lambda: CIMInstanceName("VM", keybindings={"k": Uint32(1)}),
+              "va": lambda: CIMInstanceName("VA", keybindings={"k": Uint32(1)}),
+              "cva": lambda: CIMClassName("VA")}[key]
+        pool[key] = (mk(), mk(), mk())
+    ow_, od_, pristine = pool[key]
+    if key == "vm":
+        op = rng.choice(["InvokeMethod", "InvokeMethod", "GetInstance"])
+    elif key == "va":
+        op = rng.choice(["InvokeMethod", "GetInstance", "AssociatorNames",
+                         "ReferenceNames"])
+    else:
+        op = rng.choice(["InvokeMethod", "EnumerateInstanceNames",
+                         "AssociatorNames", "EnumerateInstances"])
+    if op == "InvokeMethod":
+        params = dict(P1=Uint8(1), P2="r")
+        pair.call(op, None, None, "", dict(params),
+                  label="InvokeMethod(DoIt, <kept %s>)" % (pristine,),
+                  own=((("DoIt", ow_), dict(params)),
+                       (("DoIt", od_), dict(params))))
+    else:
+        pname = {"GetInstance": "InstanceName",
+                 "EnumerateInstanceNames": "ClassName",
+                 "EnumerateInstances": "ClassName"}.get(op, "ObjectName")
+        pair.call(op, None, None, "", {pname: pristine},
+                  label="%s(<kept %s>)" % (op, pristine),
+                  own=(((ow_,), {}), ((od_,), {})))
 
 
 def _pull(pair, cw, cd, m):
